@@ -6,6 +6,7 @@ import (
 	"fmt"
 	"os"
 	"path/filepath"
+	"regexp"
 	"sort"
 	"strconv"
 	"strings"
@@ -159,6 +160,14 @@ func cmdCheck(args []string) int {
 	var bres []boundedResult
 	for _, h := range conf.Bounded {
 		br := runBounded(h, *tier, seed, *repo)
+		// failure classes of other properties served by the same harness are reported by those properties' checks
+		var mine []boundedFailure
+		for _, f := range br.Failures {
+			if classConcerns(f.Input, prop) {
+				mine = append(mine, f)
+			}
+		}
+		br.Failures = mine
 		bres = append(bres, br)
 		for _, f := range br.Failures {
 			if kf := matchKnownBounded(known, prop, h, f.Input); kf != nil {
@@ -188,6 +197,22 @@ func cmdCheck(args []string) int {
 		prop, *tier, len(results), discharged, len(failed), len(knownHit), len(drift), len(bres), wall)
 	_ = missing
 	return exit
+}
+
+var classPropRe = regexp.MustCompile(`^C[0-9][0-9](/C[0-9][0-9])*\b`)
+
+// classConcerns: failure classes of harnesses serving several properties start with the ids they concern ("C02/C17 ...")
+func classConcerns(class, prop string) bool {
+	m := classPropRe.FindString(class)
+	if m == "" {
+		return true
+	}
+	for _, id := range strings.Split(m, "/") {
+		if id == prop {
+			return true
+		}
+	}
+	return false
 }
 
 func clauseMentionsProp(c *FuncContract, prop string) bool {
@@ -360,6 +385,17 @@ func writeEvidence(prop, tier string, seed int, conf propConf, gr *genResult, re
 		assumptions = append(assumptions, a)
 	}
 	sort.Strings(assumptions)
+	if assumptions == nil {
+		assumptions = []string{}
+	}
+	for _, b := range bres {
+		assumptions = append(assumptions, fmt.Sprintf("bounded stand-in %s: nothing is claimed beyond its bound (%s)", b.ID, b.Bound))
+		for _, sm := range b.Samples {
+			if len(samples) < 12 {
+				samples = append(samples, map[string]interface{}{"bounded_harness": b.ID, "case": sm})
+			}
+		}
+	}
 	cov := map[string]interface{}{
 		"obligations":              obligations,
 		"discharged":               discharged,
@@ -391,6 +427,11 @@ func writeEvidence(prop, tier string, seed int, conf propConf, gr *genResult, re
 			evals += b.Evaluations
 			distinct += b.DistinctNontrivial
 		}
+		exh := true
+		for _, b := range bres {
+			exh = exh && b.Exhaustive
+		}
+		cov["bounded_exhaustive_within_bound"] = exh
 		cov["bounded_checks"] = bl
 		cov["evaluations"] = evals
 		cov["distinct_nontrivial"] = distinct
